@@ -34,7 +34,7 @@ func VerifC40Inline() {
 	steps := vParam("STEPS", 3)
 	retainedOnA := false
 	for i := 0; i < steps; i++ {
-		switch vChoose(3) {
+		switch vChoose(5) {
 		case 0: // inline subscribe
 			id, fi := 1+vChoose(2), vChoose(4)
 			before := len(got)
@@ -51,6 +51,19 @@ func VerifC40Inline() {
 			id, fi := 1+vChoose(2), vChoose(4)
 			_ = s.Unsubscribe(filters[fi], id)
 			has[id][fi] = false
+		case 3: // another (regular) client subscribes to / unsubscribes from one of the same filters
+			fi := vChoose(4)
+			if vBool() {
+				s.Topics.Subscribe("c2", packets.Subscription{Filter: filters[fi]})
+			} else {
+				s.Topics.Unsubscribe(filters[fi], "c2")
+			}
+		case 4: // the retained message of a topic is cleared (empty retained publish)
+			ti := vChoose(2)
+			_ = s.Publish(topics[ti], nil, true, 0)
+			if ti == 0 {
+				retainedOnA = false
+			}
 		case 2: // publish through the embedding API
 			ti := vChoose(2)
 			q := byte(vConcrete(int(vByteIn("\x00\x01\x02")), 0, 2))
@@ -95,5 +108,40 @@ func VerifC40Inline() {
 			}
 		}
 	}
+	vReach("end")
+}
+
+// VerifC40Prune: an inline subscription survives every index operation by others that prunes around its
+// node: another client's subscribe+unsubscribe of the same or a deeper filter, a retained message set and
+// cleared on the same topic. Afterwards a publish still reaches it exactly once.
+func VerifC40Prune() {
+	s, _ := vNewServer(&Options{InlineClient: true})
+	filters := []string{"a/b", "a/+", "a/#", "a"}
+	fi := vChoose(4)
+	n := 0
+	_ = s.Subscribe(filters[fi], 1, func(cl *Client, sub packets.Subscription, pk packets.Packet) {
+		if len(pk.Payload) > 0 && pk.Payload[0] == 77 {
+			n++
+		}
+	})
+	switch vChoose(4) {
+	case 0: // same filter, regular client
+		s.Topics.Subscribe("c2", packets.Subscription{Filter: filters[fi]})
+		s.Topics.Unsubscribe(filters[fi], "c2")
+	case 1: // deeper filter
+		s.Topics.Subscribe("c2", packets.Subscription{Filter: filters[fi] + "/x"})
+		s.Topics.Unsubscribe(filters[fi]+"/x", "c2")
+	case 2: // retained message on the node's own path set and cleared
+		if fi == 0 || fi == 3 {
+			_ = s.Publish(filters[fi], []byte{1}, true, 0)
+			_ = s.Publish(filters[fi], nil, true, 0)
+		}
+	case 3: // a shared subscription on the same filter comes and goes
+		s.Topics.Subscribe("c2", packets.Subscription{Filter: "$share/g/" + filters[fi]})
+		s.Topics.Unsubscribe("$share/g/"+filters[fi], "c2")
+	}
+	topic := []string{"a/b", "a/b", "a/b", "a"}[fi]
+	_ = s.Publish(topic, []byte{77}, false, 0)
+	vAssert("inline-subscription-survives-pruning-by-others", n == 1)
 	vReach("end")
 }
